@@ -122,7 +122,7 @@ func runBGVRefresh(c *eng.Ctx, cc caseCfg) {
 		outKeys = newKeyset(pOut, n)
 	}
 	e2sPool, s2ePool := &pool{}, &pool{}
-	freshB := 1 + pkEncBound(pIn, float64(n*pIn.N()))
+	freshB := freshBound(pIn, float64(n*pIn.N()))
 	transforms := mkTransforms(w.rnd, nT, t)
 	tbig := new(big.Int).SetUint64(t)
 
